@@ -1050,6 +1050,11 @@ _CONTAINER_METHOD_NAMES = {'get', 'items', 'keys', 'values', 'update', 'pop', 'p
                            'read', 'write', 'close', 'send', 'recv'}
 
 
+# helpers of the reference tree whose rules can also read them off their callers (sa/rules/c19.py: helpers_present / lookup_of): when a
+# tree keeps the name but changes what the helper takes (so it is not the reference's helper any more), it is folded into its callers
+FOLDABLE_WHEN_CHANGED = {'configuration.Configuration._load_crypto_algs', 'configuration.Configuration._load_from_dict'}
+
+
 class Unsupported(Exception):
     pass
 
@@ -3378,7 +3383,7 @@ class Inliner:
     def candidates(self):
         out = {}
         for q, fi in self.prog.functions.items():
-            if q in self.known:
+            if q in self.known and not (q in FOLDABLE_WHEN_CHANGED and self._signature_changed(q, fi)):
                 continue
             if fi.name.startswith('__') and fi.name.endswith('__'):
                 # the constructor of a new base class that is only ever reached through `super().__init__(..)` is a helper of its subclasses
@@ -3457,6 +3462,13 @@ class Inliner:
                     continue
             out[q] = fi
         return out
+
+    def _signature_changed(self, q, fi):
+        sig = known_table().get('signatures', {}).get(q)
+        if sig is None:
+            return False
+        k = sig.index('*')
+        return set(sig[:k]) != set(fi.params) or set(sig[k + 1:]) != set(fi.kwonly)
 
     def _only_subclassed(self, cls):
         """no expression constructs the class by its name: its __init__ runs only on behalf of subclasses"""
